@@ -806,7 +806,8 @@ class BGP(protocol.Protocol):
                         LOG.info("Do not have %s in send flowspec dict" % key)
 
     def update_receive_verion(self, attr, nlri, withdraw):
-        if 14 in attr:
+        # (the MP attribute of a family without a decoder is present with the value None)
+        if attr.get(14):
             if list(attr[14]['afi_safi']) == [1, 133]:
                 LOG.info("recieve flowspec send")
                 for prefix in attr[14]['nlri']:
@@ -859,7 +860,7 @@ class BGP(protocol.Protocol):
                             self.receive_version['mpls_vpn'] += 1
                             self.mpls_vpn_receive_dict[str(key)] = value
         # receive flowspec sr mpls withdraw
-        if 15 in attr:
+        if attr.get(15):
             if list(attr[15]['afi_safi']) == [1, 133]:
                 LOG.info("recieve flowspec withdraw")
                 for prefix in attr[15]['withdraw']:
